@@ -9,6 +9,8 @@ import (
 	"strconv"
 	"strings"
 
+	"golang.org/x/tools/go/cfg"
+
 	"verif/internal/core"
 	"verif/internal/flow"
 )
@@ -733,4 +735,110 @@ func c02IntRange(st *flow.State, r string, hi int) (vals []int, ok bool) {
 		}
 	}
 	return vals, ok
+}
+
+// c02Loop describes a loop that visits the elements of a slice/array/map expression one by one:
+// `for k, v := range X`, `for i := range X` or `for i := 0; i < len(X); i++`.
+type c02Loop struct {
+	stmt     ast.Stmt
+	body     *ast.BlockStmt
+	X        ast.Expr     // the collection
+	key, val types.Object // loop variables (nil if absent)
+	keyR     string       // rendering of the key variable
+	indexed  bool         // 3-clause form
+	reverse  bool         // 3-clause form counting down from len(X)-1
+	bodyKind cfg.BlockKind
+	backKind cfg.BlockKind
+	doneKind cfg.BlockKind
+}
+
+// c02LoopOf recognises the loop forms above (nil if stmt is another kind of loop).
+func c02LoopOf(f *flow.Func, stmt ast.Stmt) *c02Loop {
+	switch l := stmt.(type) {
+	case *ast.RangeStmt:
+		lp := &c02Loop{stmt: l, body: l.Body, X: l.X, bodyKind: cfg.KindRangeBody, backKind: cfg.KindRangeLoop, doneKind: cfg.KindRangeDone}
+		if l.Key != nil {
+			lp.key = c02Obj(f, l.Key)
+			if lp.key != nil {
+				lp.keyR = f.Render(l.Key)
+			}
+		}
+		if l.Value != nil {
+			lp.val = c02Obj(f, l.Value)
+		}
+		return lp
+	case *ast.ForStmt:
+		post, ok := l.Post.(*ast.IncDecStmt)
+		init, ok2 := l.Init.(*ast.AssignStmt)
+		if !ok || !ok2 || l.Cond == nil || len(init.Lhs) != 1 || len(init.Rhs) != 1 {
+			return nil
+		}
+		iObj := c02Obj(f, init.Lhs[0])
+		if iObj == nil || c02Obj(f, post.X) != iObj {
+			return nil
+		}
+		lenArg := func(e ast.Expr) ast.Expr {
+			if call, ok := ast.Unparen(e).(*ast.CallExpr); ok && len(call.Args) == 1 {
+				if b, ok := f.Callee(call).(*types.Builtin); ok && b.Name() == "len" {
+					return call.Args[0]
+				}
+			}
+			return nil
+		}
+		lp := &c02Loop{stmt: l, body: l.Body, key: iObj, keyR: f.Render(init.Lhs[0]), indexed: true, bodyKind: cfg.KindForBody, backKind: cfg.KindForPost, doneKind: cfg.KindForDone}
+		be, isBin := ast.Unparen(l.Cond).(*ast.BinaryExpr)
+		if !isBin {
+			return nil
+		}
+		if post.Tok == token.INC {
+			zero := f.Info.Types[init.Rhs[0]]
+			if zero.Value == nil || zero.Value.ExactString() != "0" {
+				return nil
+			}
+			lhs, rhs := be.X, be.Y
+			if be.Op == token.GTR {
+				lhs, rhs = rhs, lhs
+			}
+			if (be.Op != token.LSS && be.Op != token.GTR) || c02Obj(f, lhs) != iObj {
+				return nil
+			}
+			lp.X = lenArg(rhs)
+		} else {
+			// i := len(X)-1; i >= 0 (i > -1, 0 <= i); i--
+			sub, ok := ast.Unparen(init.Rhs[0]).(*ast.BinaryExpr)
+			if !ok || sub.Op != token.SUB {
+				return nil
+			}
+			if one := f.Info.Types[sub.Y]; one.Value == nil || one.Value.ExactString() != "1" {
+				return nil
+			}
+			k, neg := f.Atom(l.Cond)
+			ri := f.Render(init.Lhs[0])
+			if !((k == "lt:"+ri+"<0" && neg) || (k == "lt:-1<"+ri && !neg)) {
+				return nil
+			}
+			lp.X = lenArg(sub.X)
+			lp.reverse = true
+		}
+		if lp.X == nil {
+			return nil
+		}
+		return lp
+	}
+	return nil
+}
+
+// elem reports whether e denotes the element of the current iteration: the range value, or X[key].
+func (lp *c02Loop) elem(d *c02Defs, e ast.Expr) bool {
+	e = d.alias(e)
+	if u, ok := e.(*ast.UnaryExpr); ok && u.Op == token.AND {
+		e = ast.Unparen(u.X)
+	}
+	if lp.val != nil && c02Obj(d.f, e) == lp.val {
+		return true
+	}
+	if ix, ok := e.(*ast.IndexExpr); ok && lp.key != nil {
+		return d.rootObj(ix.Index) == lp.key && d.norm(ix.X) == d.norm(lp.X)
+	}
+	return false
 }
